@@ -192,9 +192,17 @@ def do_golden_runs():
         if options.args().match_out_cc:
             logging.info(
                 f'match (cc) (stdout): "{options.args().match_out_cc}"')
+            if options.args().match_out_cc not in __GOLDEN_CC.out:
+                logging.error('Expected stdout of the cross check to match '
+                              f'"{options.args().match_out_cc}"')
+                sys.exit(1)
         if options.args().match_err_cc:
             logging.info(
                 f'match (cc) (stderr): "{options.args().match_err_cc}"')
+            if options.args().match_err_cc not in __GOLDEN_CC.err:
+                logging.error('Expected stderr of the cross check to match '
+                              f'"{options.args().match_err_cc}"')
+                sys.exit(1)
 
         if options.args().timeout_cc is None:
             options.args().timeout_cc = round((__GOLDEN_CC.runtime + 1) * 1.5,
